@@ -12,6 +12,7 @@ import (
 	"github.com/MichaelMure/git-bug/entities/identity"
 	"github.com/MichaelMure/git-bug/entity"
 	"github.com/MichaelMure/git-bug/repository"
+	"github.com/MichaelMure/git-bug/util/verifhook"
 )
 
 type Excerpt interface {
@@ -358,6 +359,7 @@ func (sc *SubCache[EntityT, ExcerptT, CacheT]) Resolve(id entity.Id) (CacheT, er
 		return cached, nil
 	}
 	sc.mu.RUnlock()
+	verifhook.Point("cache.resolve.miss")
 
 	e, err := sc.actions.ReadWithResolver(sc.repo, sc.resolvers(), id)
 	if err != nil {
@@ -365,6 +367,7 @@ func (sc *SubCache[EntityT, ExcerptT, CacheT]) Resolve(id entity.Id) (CacheT, er
 	}
 
 	cached = sc.makeCached(e, sc.entityUpdated)
+	verifhook.Point("cache.resolve.loaded")
 
 	sc.mu.Lock()
 	sc.cached[id] = cached
@@ -600,6 +603,7 @@ func (sc *SubCache[EntityT, ExcerptT, CacheT]) entityUpdated(id entity.Id) error
 	// sc.excerpts[id] = bug2.NewBugExcerpt(b.bug, b.Snapshot())
 	sc.excerpts[id] = sc.makeExcerpt(e)
 	sc.mu.Unlock()
+	verifhook.Point("cache.updated.unlocked")
 
 	index, err := sc.repo.GetIndex(sc.namespace)
 	if err != nil {
